@@ -6,6 +6,7 @@ CONSTANTS
   MinLen = 0
   MaxPairs = 0
   KeepHist = FALSE
+  EmitFrom = 0
 INVARIANT Emit
 POSTCONDITION Consumed
 CHECK_DEADLOCK FALSE
